@@ -115,6 +115,11 @@ Proof.
   intros g s t. unfold queue_resolved, qr_ok, qr_state. destruct (ts s t) eqn:E; cbn; try reflexivity.
 Qed.
 
+(* the non-building pass releases nothing - in the source as it is (Gen/StateOrder.v: pending_cas_needs_building) *)
+Lemma semi_release_eq : forall s t, semi_release s t = s.
+Proof. reflexivity. Qed.
+#[export] Hint Rewrite semi_release_eq : proj.
+
 (* ---- runs ---- *)
 Definition reachable (g : graph) (s : state) : Prop := exists ls, run g (init g) ls = Some s.
 
